@@ -409,6 +409,166 @@ def r209(repo, ctx, index):
     ctx.floor('R20.9', n, 4)
 
 
+CURV_FIELDS = {'dc': 'dc', 'mc': 'mc', 'gba': 'gba', 'beta': 'beta', 'xEqAlpha': 'c_eq_alpha', 'xEqBeta': 'c_eq_beta'}
+
+
+def r2010(repo, ctx):
+    """layout agreement of the curvature surrogate: _fitCurvature packs the training columns [dc | mc | gba | beta | xEqAlpha |
+    xEqBeta] and _surrogateOutputToCurvature cuts a predicted row apart again.  The column interval each field is read from
+    (symbolic in the number of elements n) must be the interval it was written to."""
+    import sympy as sp
+    n = sp.Symbol('n', positive=True, integer=True)
+    cls = 'MulticomponentSurrogate'
+    fw = repo.func(SU, f'{cls}._fitCurvature')
+    fr = repo.func(SU, f'{cls}._surrogateOutputToCurvature')
+    # ---- writer: widths of the concatenated blocks
+    wdefs = {}
+    for st in ast.walk(fw):
+        if isinstance(st, ast.Assign) and len(st.targets) == 1 and isinstance(st.targets[0], ast.Name):
+            wdefs.setdefault(st.targets[0].id, []).append(st.value)
+        elif isinstance(st, ast.Assign) and len(st.targets) == 1 and isinstance(st.targets[0], ast.Tuple) and isinstance(st.value, ast.Tuple):
+            for a, b in zip(st.targets[0].elts, st.value.elts):
+                if isinstance(a, ast.Name):
+                    wdefs.setdefault(a.id, []).append(b)
+
+    def origin(e, depth=0):
+        """(training-data key, width) of a block expression"""
+        if depth > 8:
+            return None
+        if isinstance(e, ast.Subscript) and isinstance(e.value, ast.Name) and e.value.id == 'data' and U.is_const(e.slice):
+            return (e.slice.value, None)
+        if isinstance(e, ast.Attribute) and e.attr == 'T':
+            o = origin(e.value, depth + 1)
+            return (o[0], 'T' if o[1] == 'row' else o[1]) if o else None
+        if isinstance(e, ast.Call):
+            nm = U.call_name(e) or ''
+            if nm == 'np.atleast_2d' and e.args:
+                o = origin(e.args[0], depth + 1)
+                return (o[0], 'row') if o else None
+            if nm in ('np.log', 'np.array', 'np.exp', 'np.asarray') and e.args:
+                return origin(e.args[0], depth + 1)
+            if nm == 'np.reshape' and len(e.args) == 2:
+                o = origin(e.args[0], depth + 1)
+                shp = e.args[1]
+                if o and isinstance(shp, ast.Tuple) and len(shp.elts) == 2 and isinstance(shp.elts[1], ast.BinOp) and isinstance(shp.elts[1].op, ast.Mult):
+                    return (o[0], 'square')
+                return None
+        if isinstance(e, ast.Name) and e.id in wdefs:
+            outs = [origin(v, depth + 1) for v in wdefs[e.id] if not (isinstance(v, ast.Name) and v.id == e.id)]
+            outs = [o for o in outs if o]
+            keys = {o[0] for o in outs}
+            if len(keys) == 1:
+                kinds = [o[1] for o in outs if o[1]]
+                return (keys.pop(), kinds[-1] if kinds else None)
+        return None
+    cat = [c for c in U.calls(fw) if U.call_name(c) == 'np.concatenate' and c.args and isinstance(c.args[0], (ast.Tuple, ast.List)) and len(c.args[0].elts) >= 4]
+    if len(cat) != 1:
+        ctx.undecided('R20.10', SU, f'{cls}._fitCurvature', fw, 'the concatenation of the training columns was not found')
+        return
+    layout, off = {}, sp.Integer(0)
+    for blk in cat[0].args[0].elts:
+        o = origin(blk)
+        if o is None or o[1] not in ('row', 'T', 'square'):
+            ctx.undecided('R20.10', SU, f'{cls}._fitCurvature', blk, f'width of the training block {U.src(blk)} not recognised')
+            return
+        w = {'row': n, 'T': sp.Integer(1), 'square': n * n}[o[1]]
+        layout[o[0]] = (off, off + w)
+        off = off + w
+    # ---- reader: interval every field is cut from
+    pn = U.params(fr)
+    out_name, n_name = pn[1], pn[2]
+    env = {n_name: n}
+    rows = {out_name}
+    got = {}
+
+    def num(e):
+        if isinstance(e, ast.Constant) and isinstance(e.value, int):
+            return sp.Integer(e.value)
+        if isinstance(e, ast.Name) and e.id in env:
+            return env[e.id]
+        if isinstance(e, ast.BinOp) and isinstance(e.op, (ast.Add, ast.Sub, ast.Mult, ast.Pow)):
+            l, r = num(e.left), num(e.right)
+            return {ast.Add: l + r, ast.Sub: l - r, ast.Mult: l * r, ast.Pow: l ** r}[type(e.op)]
+        raise AnalysisError(f'offset expression {U.src(e)}')
+
+    def interval(e):
+        """column interval of an expression that is (a wrapper around) one slice / index of the predicted row"""
+        if isinstance(e, ast.Call) and (U.call_name(e) or '') in ('np.squeeze', 'np.reshape', 'np.exp', 'np.array', 'float', 'np.atleast_1d') and e.args:
+            return interval(e.args[0])
+        if isinstance(e, ast.IfExp):
+            a, b = interval(e.body), interval(e.orelse)
+            return a if a == b else None
+        if isinstance(e, ast.Name) and e.id in got:
+            return got[e.id]
+        def is_row(b):
+            if isinstance(b, ast.Name):
+                return b.id in rows and b.id != out_name
+            return isinstance(b, ast.Subscript) and isinstance(b.value, ast.Name) and b.value.id == out_name and (
+                U.is_const(b.slice, 0) or (isinstance(b.slice, ast.Tuple) and len(b.slice.elts) == 2 and U.is_const(b.slice.elts[0], 0)
+                                           and isinstance(b.slice.elts[1], ast.Slice) and b.slice.elts[1].lower is None and b.slice.elts[1].upper is None))
+        if isinstance(e, ast.Subscript) and (is_row(e.value) or (isinstance(e.value, ast.Name) and e.value.id == out_name)):
+            sl = e.slice
+            if isinstance(e.value, ast.Name) and e.value.id == out_name:
+                if isinstance(sl, ast.Tuple) and len(sl.elts) == 2 and U.is_const(sl.elts[0], 0):
+                    sl = sl.elts[1]
+                else:
+                    return None
+            if isinstance(sl, ast.Slice):
+                lo = num(sl.lower) if sl.lower is not None else sp.Integer(0)
+                hi = num(sl.upper) if sl.upper is not None else None
+                return (sp.expand(lo), sp.expand(hi) if hi is not None else None)
+            v = num(sl)
+            return (sp.expand(v), sp.expand(v + 1))
+        return None
+    try:
+        for st in U.body_without_docstring(fr):
+            if isinstance(st, ast.Assign) and len(st.targets) == 1 and isinstance(st.targets[0], ast.Name):
+                t, v = st.targets[0].id, st.value
+                if isinstance(v, ast.Subscript) and isinstance(v.value, ast.Name) and v.value.id == out_name and (U.is_const(v.slice, 0) or (isinstance(v.slice, ast.Tuple) and U.is_const(v.slice.elts[0], 0)
+                                                                                                                     and isinstance(v.slice.elts[1], ast.Slice) and v.slice.elts[1].lower is None and v.slice.elts[1].upper is None)):
+                    rows.add(t)
+                    continue
+                iv = interval(v)
+                if iv is not None:
+                    got[t] = iv
+                    continue
+                try:
+                    env[t] = num(v)
+                except AnalysisError:
+                    pass
+            elif isinstance(st, ast.AugAssign) and isinstance(st.target, ast.Name) and isinstance(st.op, ast.Add) and st.target.id in env:
+                env[st.target.id] = env[st.target.id] + num(st.value)
+            elif isinstance(st, ast.If):
+                for b in st.body + st.orelse:
+                    if isinstance(b, ast.Assign) and len(b.targets) == 1 and isinstance(b.targets[0], ast.Name):
+                        iv = interval(b.value)
+                        if iv is not None:
+                            got[b.targets[0].id] = iv
+    except AnalysisError as e:
+        ctx.undecided('R20.10', SU, f'{cls}._surrogateOutputToCurvature', fr, f'offsets of the predicted row not computable: {e}')
+        return
+    ctor = [c for c in U.calls(fr) if (U.call_name(c) or '').split('.')[-1] == 'CurvatureOutput']
+    if len(ctor) != 1:
+        ctx.undecided('R20.10', SU, f'{cls}._surrogateOutputToCurvature', fr, 'construction of the CurvatureOutput not found')
+        return
+    total = off
+    nf = 0
+    for key, field in CURV_FIELDS.items():
+        kw = U.kwarg(ctor[0], field)
+        iv = interval(kw) if kw is not None else None
+        want = layout.get(key)
+        if iv is None or want is None:
+            ctx.undecided('R20.10', SU, f'{cls}._surrogateOutputToCurvature', kw or fr, f'columns of the field {field} not identified')
+            continue
+        nf += 1
+        hi = iv[1] if iv[1] is not None else total
+        ok = sp.simplify(iv[0] - want[0]) == 0 and sp.simplify(hi - want[1]) == 0
+        ctx.check(ok, 'R20.10', SU, f'{cls}._surrogateOutputToCurvature', kw, f'{field} is read from columns [{want[0]}, {want[1]}), where _fitCurvature wrote {key}',
+                  f'{field} is read from columns [{iv[0]}, {hi}) of the predicted row but _fitCurvature wrote {key} to [{sp.expand(want[0])}, {sp.expand(want[1])}): the surrogate returns another quantity '
+                  'than it was trained on at every point, including the training points', construct=f'{field}: columns of the predicted row')
+    ctx.floor('R20.10', nf, 6)
+
+
 def check(repo, ctx, index, purity):
     ctx.explanation = EXPLANATION
     ctx.assumptions += ['exact reproduction of array contents and interpolation at training points are numeric and not decided']
@@ -419,6 +579,7 @@ def check(repo, ctx, index, purity):
     r206(repo, ctx)
     r207(repo, ctx)
     r209(repo, ctx, index)
+    r2010(repo, ctx)
     # R20.8: the population balance of a loaded model is rebuilt on the saved grid (C08 R8.7)
     from . import C08
     sub = type(ctx)(ctx.prop, ctx.repo, ctx.tier, ctx.seed)
